@@ -272,9 +272,13 @@ func (m *model) resize(size int) {
 }
 
 // pool builds keys that collide: same bucket/different signature, same signature/different
-// bucket, same both/different remaining bits; a few zero signatures.
+// bucket, same both/different remaining bits; a few zero signatures. How a hash is mapped to a
+// bucket is the table's business (hook VerifBucketIx): the pool first finds an anchor hash for each
+// chosen bucket (a guess for the current multiplicative mapping, then plain sampling), learns
+// which single bits can be flipped without leaving the bucket, and varies only those.
 func pool(rng *rand.Rand, t *transp.Table, n int) []uint64 {
 	nb := t.VerifBuckets()
+	ix := func(h uint64) int { return t.VerifBucketIx(board.Hash(h)) }
 	nbk := min(nb, 3)
 	buckets := make([]int, nbk)
 	for i := range buckets {
@@ -290,28 +294,51 @@ func pool(rng *rand.Rand, t *transp.Table, n int) []uint64 {
 			buckets[1] = 0
 		}
 	}
+	type anchor struct{ h, free uint64 }
+	anchors := make([]anchor, nbk)
+	for i, b := range buckets {
+		h := uint64(uint32((uint64(b)<<32)/uint64(nb)) + 1 + uint32(rng.IntN(8)))
+		for try := 0; ix(h) != b && try < 300000; try++ {
+			h = rng.Uint64()
+		}
+		// (if the bucket was not found the anchor simply sits in another bucket)
+		a := anchor{h: h}
+		for bit := 0; bit < 64; bit++ {
+			if ix(h^1<<bit) == ix(h) {
+				a.free |= 1 << bit
+			}
+		}
+		anchors[i] = a
+	}
 	var p []uint64
 	for len(p) < n {
-		b := buckets[rng.IntN(nbk)]
-		lo := uint32((uint64(b)<<32)/uint64(nb)) + 1 + uint32(rng.IntN(8))
-		if nb <= 4 {
-			lo = rng.Uint32()
-		}
-		sig := uint64(1 + rng.IntN(10))
-		switch rng.IntN(12) {
-		case 0:
-			sig = uint64(rng.IntN(65536))
-		case 1:
-			sig = 0
-		case 2:
-			sig = 0xffff
-		case 3:
-			sig = 0x8000
-		}
-		mid := uint64(rng.IntN(3)) << 32
-		h := sig<<48 | mid | uint64(lo)
-		if nb > 4 && t.VerifBucketIx(board.Hash(h)) != b {
-			continue
+		a := anchors[rng.IntN(nbk)]
+		h := a.h
+		for try := 0; try < 32; try++ {
+			// few distinct values in the free bits below the signature, so that keys differing only
+			// there are frequent; the signature from a small set
+			v := uint64(rng.IntN(24))
+			v |= uint64(rng.IntN(3)) << 32
+			if rng.IntN(4) == 0 {
+				v = rng.Uint64()
+			}
+			sig := uint64(1 + rng.IntN(10))
+			switch rng.IntN(12) {
+			case 0:
+				sig = uint64(rng.IntN(65536))
+			case 1:
+				sig = 0
+			case 2:
+				sig = 0xffff
+			case 3:
+				sig = 0x8000
+			}
+			v = v&^(0xffff<<48) | sig<<48
+			c := a.h&^a.free | v&a.free
+			if ix(c) == ix(a.h) {
+				h = c
+				break
+			}
 		}
 		p = append(p, h)
 	}
